@@ -16,6 +16,10 @@ CANON = [
     (re.compile(r'^QXmppTask<(QXmpp::Private::IqResult|IqResult|QXmppOutgoingClient::IqResult|std::variant<QDomElement,QXmppError>)>$'), 'qtask'),
     (re.compile(r'^(QXmpp::Private::IqResult|IqResult|QXmppOutgoingClient::IqResult|std::variant<QDomElement,QXmppError>|(typename )?std::remove_reference<(std::)?variant<QDomElement,QXmppError>>::type)$'), 'IqResult'),
     (re.compile(r'^std::optional<(QXmppStanza::)?Error>$'), 'optErr'),
+    (re.compile(r'^(QXmpp::SendResult|SendResult|(std::)?variant<(QXmpp::)?SendSuccess,QXmppError>|(typename )?std::remove_reference<(std::)?variant<(QXmpp::)?SendSuccess,QXmppError>>::type)$'), 'SendResult'),
+    (re.compile(r'^QXmppTask<(QXmpp::SendResult|SendResult|std::variant<QXmpp::SendSuccess,QXmppError>)>$'), 'sendtask'),
+    (re.compile(r'^(typename )?std::remove_reference<QXmppPacket>::type$'), 'QXmppPacket'),
+    (re.compile(r'^(typename )?std::remove_reference<QXmppIq>::type$'), 'QXmppIq'),
     (re.compile(r'^(QXmppStanza::Error|Err|Error)$'), 'stanzaerr'),
 ]
 
@@ -128,6 +132,84 @@ def rangefor_desugared(lw, n, rinit, lv, body, ind):
     lw.loop(None, cond, inc, {'kind': 'CompoundStmt', 'inner': [lvd, body]}, ind)
 
 
+def src_text(lw, n):
+    """source text of node n (used where clang's JSON omits explicit template arguments)"""
+    def loc(l):
+        for k in ('expansionLoc', 'spellingLoc'):
+            if k in l:
+                return l[k]
+        return l
+    b, e = loc(n['range']['begin']), loc(n['range']['end'])
+    if 'offset' not in b or 'offset' not in e:
+        raise Unsupported('node without source offsets')
+    data = open(lw.source_files[0], 'rb').read()
+    return data[b['offset']:e['offset'] + e.get('tokLen', 0)].decode('utf-8', 'replace')
+
+
+def variant_alternatives(lw, n):
+    t = strip_type(dqt(n))
+    m = re.match(r'^(?:std::)?variant<(.*)>$', t)
+    if not m:
+        raise Unsupported('not a variant: %s' % t)
+    return [a.strip() for a in m.group(1).split(',')]
+
+
+def holds_alternative(lw, node, args):
+    """std::holds_alternative<T>(v): T is read from the source token (clang's JSON does not print explicit template arguments)"""
+    txt = src_text(lw, node)
+    m = re.match(r'^(?:std::)?holds_alternative\s*<\s*([\w:]+)\s*>\s*\(', txt)
+    if not m:
+        raise Unsupported('holds_alternative call not recognised in source: %r' % txt[:60])
+    alts = variant_alternatives(lw, lw.skip(node['inner'][1]))
+    want = m.group(1).split('::')[-1]
+    idx = [i for i, a in enumerate(alts) if a.split('::')[-1] == want]
+    if len(idx) != 1:
+        raise Unsupported('alternative %s not found in %s' % (want, alts))
+    return '((%s)->kind == %d)' % (args[0], idx[0])
+
+
+def variant_get(lw, node, args):
+    """std::get<QXmppError>(SendResult&&)"""
+    if lw.tkey(node) != 'QXmppError' or lw.tkey(lw.skip(node['inner'][1])) != 'SendResult':
+        raise Unsupported('std::get on %s' % lw.tkey(lw.skip(node['inner'][1])))
+    alts = variant_alternatives(lw, lw.skip(node['inner'][1]))
+    if alts.index('QXmppError') != 1:
+        raise Unsupported('QXmppError is not alternative 1 of SendResult')
+    return '(*SendResult_get_error(%s))' % args[0]
+
+
+def lambda_token(lw, n):
+    """a lambda passed as continuation: verified as its own target; here only a token (the `then` rule checks the captures)"""
+    return '0 /*continuation*/'
+
+
+def then_on_sent(lw, node, args):
+    """m_streamAckManager.send(p).then(l, [this, id](SendResult) {...}):  the continuation is the separately lowered target
+    OutgoingIqManager_sendIq_onSent(self, result, id); the captures must be exactly `this` and a copy of the parameter id"""
+    lam = lw.skip(node['inner'][2])
+    if lam.get('kind') != 'LambdaExpr':
+        raise Unsupported('then() with a continuation that is not a lambda')
+    caps = [lw.skip(c) for c in lam['inner'][1:-1]]
+    if len(caps) != 2 or caps[0].get('kind') != 'CXXThisExpr':
+        raise Unsupported('continuation of sendIq captures %d objects (expected this, id)' % len(caps))
+    c1 = caps[1]
+    while c1.get('kind') in ('CXXConstructExpr',) and len(c1.get('inner', [])) == 1:
+        c1 = lw.skip(c1['inner'][0])
+    if c1.get('kind') != 'DeclRefExpr' or c1['referencedDecl'].get('kind') != 'ParmVarDecl':
+        raise Unsupported('continuation of sendIq does not capture a parameter by copy')
+    return 'sendIq_onSent_then(%s, self, %s)' % (args[0], lw.expr(c1))
+
+
+def method_ret(cname, ctype):
+    """call of a lowered member function that returns a class by value: the lowered signature is f(self, &ret, args...)"""
+    def rule(lw, node, args):
+        lw.repo_callees.add(cname)
+        t = lw.newtmp()
+        lw.pre.append('%s %s; %s(%s, &%s%s);' % (ctype, t, cname, args[0], t, ''.join(', ' + a for a in args[1:])))
+        return t
+    return rule
+
+
 def profile():
     p = opaque_profile(
         types={'umap_it': 'umap_it', 'umap': 'umap', 'iqpair': 'iqpair', 'umap_emplace_ret': 'umap_emplace_ret', 'qpromise': 'qpromise', 'qtask': 'qtask',
@@ -136,9 +218,14 @@ def profile():
                'std::unordered_map<QString,IqState>': 'umap', 'std::unordered_map<QString,QXmpp::Private::IqState>': 'umap',
                'QXmpp::Private::OutgoingIqManager': 'OutgoingIqManager', 'OutgoingIqManager': 'OutgoingIqManager',
                'QXmpp::Private::SessionBegin': 'SessionBegin', 'QXmpp::Private::SessionEnd': 'SessionEnd',
+               'QXmppPacket': 'QXmppPacket', 'QXmpp::Private::StreamAckManager': 'StreamAckManager', 'StreamAckManager': 'StreamAckManager',
+               'SendResult': 'SendResult', 'sendtask': 'sendtask', 'QXmppLoggable': 'void', 'QObject': 'void',
+               'QXmppOutgoingClient': 'QXmppOutgoingClient', 'QXmppOutgoingClientPrivate': 'QXmppOutgoingClientPrivate',
+               'std::unique_ptr<QXmppOutgoingClientPrivate>': 'QXmppOutgoingClientPrivate*', 'std::unique_ptr<QXmppOutgoingClientPrivate>::pointer': 'QXmppOutgoingClientPrivate*',
                'QXmpp::SendError': 'int', 'QXmppStanza::Error::Type': 'int', 'QXmppStanza::Error::Condition': 'int'},
         class_types={'umap', 'iqpair', 'umap_emplace_ret', 'qpromise', 'qtask', 'IqResult', 'optErr', 'qany', 'QXmppError', 'QXmppIq', 'IqState',
-                     'OutgoingIqManager', 'SessionBegin', 'SessionEnd'},
+                     'OutgoingIqManager', 'SessionBegin', 'SessionEnd', 'QXmppPacket', 'StreamAckManager', 'SendResult', 'sendtask',
+                     'QXmppOutgoingClient', 'QXmppOutgoingClientPrivate'},
         calls={
             # the table
             'umap::find/1': ('fn', 'umap_find'),
@@ -173,12 +260,30 @@ def profile():
             'ctor:QXmppIq()': ('fn', 'QXmppIq_ctor'),
             'QXmppIq::parse/1': ('fn', 'QXmppIq_parse'),
             'QXmppIq::errorOptional/0': ('fnret', 'QXmppIq_errorOptional', 'optErr'),
+            'QXmppIq::id/0': ('field', 'id'),
+            'QXmppIq::to/0': ('field', 'to'),
+            'QXmppIq::setId/1': ('expr', '{0}->id = {1}'),
+            'fn:generateStanzaUuid/0': ('fn', 'generateStanzaUuid'),
+            'ctor:QXmppPacket(QXmppIq)': ('fn', 'QXmppPacket_from_iq'),
+            # send path (models with assumed contracts, units/C07/model_send.h)
+            'StreamAckManager::send/1': ('fnret', 'StreamAckManager_send', 'sendtask'),
+            'sendtask::then/2': then_on_sent,
+            'expr:LambdaExpr': lambda_token,
+            'fn:holds_alternative/1': holds_alternative,
+            'fn:get/1': variant_get,
+            'op->:QXmppOutgoingClientPrivate*': ('expr', '{0}'),
+            '*::jidBare/0': ('const', 'gh_cfg_jidBare'),
+            'OutgoingIqManager::sendIq/3': method_ret('OutgoingIqManager_sendIq_packet', 'qtask'),
+            'OutgoingIqManager::sendIq/2': method_ret('OutgoingIqManager_sendIq_iq', 'qtask'),
+            'StreamAckManager::resetCache/0': ('callee', 'StreamAckManager_resetCache'),
             # repository callees of the same class (each is verified under its own contract)
             'OutgoingIqManager::hasId/1': ('callee', 'OutgoingIqManager_hasId'),
             'OutgoingIqManager::isIdValid/1': ('callee', 'OutgoingIqManager_isIdValid'),
             'OutgoingIqManager::cancelAll/0': ('callee', 'OutgoingIqManager_cancelAll'),
-            'OutgoingIqManager::start/2': ('calleeret', 'OutgoingIqManager_start', 'qtask'),
+            'OutgoingIqManager::start/2': method_ret('OutgoingIqManager_start', 'qtask'),
             'OutgoingIqManager::finish/2': ('callee', 'OutgoingIqManager_finish'),
         },
     )
+    p.field_rules['OutgoingIqManager::l'] = '0 /* context object of the continuation: the logger l */'
+    p.pure_fns |= {'config', 'jidBare'}
     return p
